@@ -114,11 +114,18 @@ func c03Growth(s stackage.Stack, m *ListModel, o LOp, next func() any, nonest bo
 			m.Items = append(m.Items, vals[i])
 		}
 	case "MarshalInto":
+		// the values either follow a kind label, or come bare (a first value that is no label: everything is content
+		// of a BASIC stack). Either way the decoded stack was created without a capacity.
 		in := []any{"AND"}
+		wantKind, wantLen := "AND", o.I
+		if (before+o.I)%3 == 0 {
+			in = []any{"alpha"}
+			wantKind, wantLen = "BASIC", o.I+1
+		}
 		for i := 0; i < o.I; i++ {
 			in = append(in, next())
 		}
-		shown = fmt.Sprintf("Marshal(%q + %d values)", "AND", o.I)
+		shown = fmt.Sprintf("Marshal(%q + %d values)", in[0], o.I)
 		full := m.Full() || nonest // (under no-nesting the decoded Stack is skipped like any other Stack)
 		err := s.Marshal(in...)
 		if err != nil {
@@ -134,8 +141,14 @@ func c03Growth(s stackage.Stack, m *ListModel, o LOp, next func() any, nonest bo
 		if !full {
 			v, ok := s.Index(before)
 			ds, isStack := v.(stackage.Stack)
-			if !ok || !isStack || ds.Kind() != "AND" || ds.Len() != o.I {
-				return "content", fmt.Sprintf("Marshal-into stored %s, expected an AND stack of %d", Show(v), o.I), shown
+			if !ok || !isStack || ds.Kind() != wantKind || ds.Len() != wantLen {
+				return "content", fmt.Sprintf("Marshal-into stored %s, expected %s stack of %d", Show(v), wantKind, wantLen), shown
+			}
+			if ds.Cap() != -1 || ds.Avail() != -1 || ds.IsFull() {
+				return "decoded-cap", fmt.Sprintf("the stack decoded by Marshal (nobody gave it a capacity) reports Cap()=%d Avail()=%d IsFull()=%v", ds.Cap(), ds.Avail(), ds.IsFull()), shown
+			}
+			if ds.Push(next()); ds.Len() != wantLen+1 {
+				return "decoded-cap", fmt.Sprintf("the stack decoded by Marshal (nobody gave it a capacity) refused a Push at Len %d", wantLen), shown
 			}
 			m.Items = append(m.Items, v)
 		}
